@@ -229,12 +229,16 @@ def run(ctx):
             vectors = list(itertools.product(range(4), repeat=n))
             if ctx.tier != "thorough":
                 rng.shuffle(vectors)
-                vectors = vectors[:ctx.scale(70, 256)]
+                vectors = vectors[:ctx.scale(120, 256)]
         else:
-            vectors = [tuple(rng.choice([0, 1, 1, 1, 2, 3]) for _ in range(n)) for _ in range(ctx.scale(70, 800))]
+            def pick(f):
+                if f["dup"] == "once":
+                    return rng.choice([1] * 8 + [0, 2]) if f["miss"] == "req" else rng.choice([0, 1, 1, 1, 1, 2])
+                return rng.choice([0, 1, 2, 3])
+            vectors = [tuple(pick(f) for f in S) for _ in range(ctx.scale(220, 2000))]
             vectors += [tuple(1 for _ in range(n)), tuple(0 for _ in range(n)), tuple(3 for _ in range(n))]
         for mult in vectors:
-            for order in orders(rng, mult, ctx.scale(3, 12)):
+            for order in orders(rng, mult, ctx.scale(4, 12)):
                 st = {"ids": {}, "ops": False, "allow_escape": False, "i64": False}
                 doc = build_obj(rng, sname, list(order), st, unknowns=rng.choice([0, 0, 1, 2, 3]), bad=0.02)
                 ids = st["ids"]
